@@ -29,6 +29,7 @@ import (
 	"go/constant"
 	"go/token"
 	"go/types"
+	"golang.org/x/tools/go/ast/astutil"
 	"os"
 	"reflect"
 	"sort"
@@ -561,6 +562,12 @@ func (nz *normaliser) normaliseUnits(all []*normUnit) []string {
 		}
 		clone := cloneNode(info, fd).(*ast.FuncDecl)
 		changed := false
+		// helpers that are one expression (`func isBlank(r rune) bool { return r == ' ' || r == '\t' }`, a method
+		// `isReduce()` on a small struct) are substituted where they are called — also inside && / ||, loop
+		// conditions and arguments, where a statement-level inlining cannot go
+		if nz.inlineExprHelpers(info, clone, plan) {
+			changed = true
+		}
 		if loops {
 			// `for i := 0; i < len(S); i++ { x := S[i]; … }` is written as `for i, x := range S { … }`
 			var canon func(list []ast.Stmt) []ast.Stmt
@@ -1227,7 +1234,7 @@ func (nz *normaliser) hoistNestedCall(p *normUnit, info *types.Info, s ast.Stmt,
 					others = true
 				}
 				target = x
-				return true
+				return false // its arguments are judged separately (argCalls below)
 			}
 			if builtinName(info, x) != "" {
 				return true
@@ -1263,7 +1270,23 @@ func (nz *normaliser) hoistNestedCall(p *normUnit, info *types.Info, s ast.Stmt,
 		})
 	}
 	if argCalls {
-		return nil, false
+		// allowed when the helper call is the whole condition of an `if` (modulo ! and parentheses): nothing else is
+		// evaluated in that statement, so binding the arguments first keeps the order
+		whole := false
+		if ifs, ok := s.(*ast.IfStmt); ok {
+			e := unparen(ifs.Cond)
+			for {
+				if u, ok := e.(*ast.UnaryExpr); ok && u.Op == token.NOT {
+					e = unparen(u.X)
+					continue
+				}
+				break
+			}
+			whole = e == ast.Expr(target)
+		}
+		if !whole {
+			return nil, false
+		}
 	}
 	nz.tmpN++
 	name := fmt.Sprintf("inl%d", nz.tmpN)
@@ -1694,4 +1717,119 @@ func doWhileOf(info *types.Info, fs *ast.ForStmt) (ast.Stmt, *ast.ForStmt) {
 	guard := &ast.IfStmt{If: fs.Cond.Pos(), Cond: neg, Body: &ast.BlockStmt{Lbrace: fs.Cond.Pos(), List: []ast.Stmt{&ast.BranchStmt{TokPos: fs.Cond.Pos(), Tok: token.BREAK}}, Rbrace: fs.Cond.End()}}
 	body := &ast.BlockStmt{Lbrace: fs.Body.Lbrace, List: append(append([]ast.Stmt{}, fs.Body.List...), guard), Rbrace: fs.Body.Rbrace}
 	return init, &ast.ForStmt{For: fs.For, Body: body}
+}
+
+// exprHelperBody: the helper is `return <one expression>`; that expression, else nil.
+func exprHelperBody(hd *ast.FuncDecl) ast.Expr {
+	if hd.Body == nil || len(hd.Body.List) != 1 {
+		return nil
+	}
+	rt, ok := hd.Body.List[0].(*ast.ReturnStmt)
+	if !ok || len(rt.Results) != 1 {
+		return nil
+	}
+	return rt.Results[0]
+}
+
+// inlineExprHelpers replaces calls of planned one-expression helpers inside fd by the helper's expression with the
+// arguments (and the receiver) substituted for the parameters. An argument that calls something is substituted only
+// for a parameter the expression mentions at most once (it is then still evaluated once). Returns whether anything
+// was replaced.
+func (nz *normaliser) inlineExprHelpers(info *types.Info, fd *ast.FuncDecl, plan map[*types.Func]*helperInfo) bool {
+	any := false
+	for round := 0; round < 4; round++ {
+		changed := false
+		astutil.Apply(fd.Body, func(cur *astutil.Cursor) bool {
+			call, ok := cur.Node().(*ast.CallExpr)
+			if !ok {
+				return true
+			}
+			fn := callee(info, call)
+			if fn == nil || plan[fn] == nil {
+				return true
+			}
+			h := plan[fn]
+			body := exprHelperBody(h.decl)
+			if body == nil {
+				return true
+			}
+			hinfo := h.pkg.TypesInfo
+			// parameters (and receiver) → arguments
+			var pnames []*ast.Ident
+			var args []ast.Expr
+			if h.decl.Recv != nil && len(h.decl.Recv.List) == 1 && len(h.decl.Recv.List[0].Names) == 1 {
+				se, ok := unparen(call.Fun).(*ast.SelectorExpr)
+				if !ok {
+					return true
+				}
+				pnames = append(pnames, h.decl.Recv.List[0].Names[0])
+				args = append(args, se.X)
+			}
+			for _, f := range h.decl.Type.Params.List {
+				if len(f.Names) == 0 {
+					return true
+				}
+				pnames = append(pnames, f.Names...)
+			}
+			args = append(args, call.Args...)
+			if len(pnames) != len(args) {
+				return true
+			}
+			bind := map[types.Object]ast.Expr{}
+			for i, pn := range pnames {
+				o := hinfo.Defs[pn]
+				if o == nil {
+					continue
+				}
+				uses := 0
+				ast.Inspect(body, func(m ast.Node) bool {
+					if id, ok := m.(*ast.Ident); ok && hinfo.Uses[id] == o {
+						uses++
+					}
+					return true
+				})
+				impure := false
+				ast.Inspect(args[i], func(m ast.Node) bool {
+					if c2, ok := m.(*ast.CallExpr); ok && builtinName(info, c2) == "" {
+						if tv, isT := info.Types[c2.Fun]; !isT || !tv.IsType() {
+							impure = true
+						}
+					}
+					return true
+				})
+				if impure && uses > 1 {
+					return true // the argument would be evaluated more than once
+				}
+				bind[o] = args[i]
+			}
+			// the helper's expression must not assign or take addresses of its parameters (it is an expression: it cannot)
+			expr := cloneNode(hinfo, body).(ast.Expr)
+			res := astutil.Apply(expr, func(c2 *astutil.Cursor) bool {
+				if id, ok := c2.Node().(*ast.Ident); ok {
+					if a, ok := bind[info.Uses[id]]; ok {
+						ac := cloneNode(info, a).(ast.Expr)
+						pe := &ast.ParenExpr{Lparen: id.Pos(), X: ac, Rparen: id.End()}
+						if tv, ok := info.Types[a]; ok {
+							info.Types[pe] = tv
+						}
+						c2.Replace(pe)
+						return false
+					}
+				}
+				return true
+			}, nil)
+			out := &ast.ParenExpr{Lparen: call.Pos(), X: res.(ast.Expr), Rparen: call.End()}
+			if tv, ok := info.Types[call]; ok {
+				info.Types[out] = tv
+			}
+			cur.Replace(out)
+			changed = true
+			return false
+		}, nil)
+		if !changed {
+			break
+		}
+		any = true
+	}
+	return any
 }
